@@ -377,6 +377,14 @@ class Crate:
                     q = f"{name}::{ty}::{f['name']}" if not it['trait'] else f"{name}::<{ty} as {it['trait'].replace(' ', '')}>::{f['name']}"
                     f['mod'], f['file'], f['qname'], f['impl_of'] = name, file, q, ty
                     self.fns[q] = f
+            elif k == 'Trait':
+                # provided (default) methods of a crate trait: rustc names them `<module>::<Trait>::<method>`
+                for f in it.get('fns') or []:
+                    if f.get('cfg_test'):
+                        continue
+                    q = f"{name}::{it['name']}::{f['name']}"
+                    f['mod'], f['file'], f['qname'], f['impl_of'], f['trait_default'] = name, file, q, it['name'], it['name']
+                    self.fns[q] = f
             elif k == 'Struct':
                 self.structs[f"{name}::{it['name']}"] = it
             elif k == 'Enum':
@@ -528,12 +536,17 @@ class Crate:
                 from engine_mir import Mir
                 from crossval import norm
                 mir = Mir()
+                # methods of trait impls (`impl TypeExt for naga::Type`) are named differently by the two engines: match them by definition site
+                by_site = {(self.relfile(f_['file']), f_.get('line'), f_['name']): q_ for q_, f_ in self.fns.items() if f_.get('impl_of')}
                 for n, b in mir.bodies.items():
                     for _, t in b.calls():
                         callee = t['callee'] or t['raw']
                         sp = t.get('span') or {}
                         if callee in mir.bodies and mir.bodies[callee].kind != 'Closure' and not sp.get('exp') and sp.get('file'):
                             q = 'crate::' + norm(callee)
+                            if q not in self.fns:
+                                dsp = mir.bodies[callee].j.get('span') or {}
+                                q = by_site.get((dsp.get('file'), dsp.get('line'), callee.rsplit('::', 1)[-1]))
                             if q in self.fns and self.fns[q].get('impl_of'):
                                 idx.setdefault((sp['file'], sp['line'], q.rsplit('::', 1)[-1]), set()).add(q)
             except Exception:
@@ -1238,9 +1251,100 @@ class Interp:
     def is_variant_ident(self, name):
         return name[:1].isupper() and name not in ('Self',)
 
+    def constructed(self, v, depth=0):
+        """the value is spelled out by the crate's own code: a variant of a crate enum (with or without payload), possibly inside Ok / Err, or a
+        choice of such values - patterns on it are decided here instead of staying symbolic (an intermediate representation such as
+        `enum BindingResource { Buffer, Texture { dim, .. }, Sampler { .. } }` built by one function and matched by another)"""
+        if v[0] in ('ok', 'err'):
+            return depth < 3 and (v[0] == 'err' or self.constructed(v[1], depth + 1) or True)
+        if v[0] == 'path':
+            return v[1].rsplit('::', 1)[0] in self.c.enums
+        if v[0] == 'struct':
+            return v[1].rsplit('::', 1)[0] in self.c.enums
+        if v[0] == 'alt' and depth < 3:
+            vals = [x for _, x in v[1] if x[0] != 'diverge']
+            return bool(vals) and all(self.constructed(x, depth + 1) for x in vals)
+        return False
+
+    def static_match(self, pat, v, env):
+        """match a pattern against a constructed value (see `constructed`): the condition (TRUE / FALSE / a choice of them) with the pattern's
+        variables bound in env, or None when the pattern / value pair is not of that kind"""
+        k = pat['k']
+        if v[0] == 'alt':
+            conds, envs = [], []
+            for c, x in v[1]:
+                if x[0] == 'diverge':
+                    conds.append((c, FALSE))
+                    envs.append({})
+                    continue
+                e2 = Env()
+                m = self.static_match(pat, x, e2)
+                if m is None:
+                    return None
+                conds.append((c, m))
+                envs.append(e2.d if hasattr(e2, 'd') else {})
+            names = []
+            for e2 in envs:
+                for n_ in e2:
+                    if n_ not in names:
+                        names.append(n_)
+            for n_ in names:
+                arms = [(('and', [c, m]) if m != TRUE else c, e2[n_]) for (c, m), e2 in zip(conds, envs) if n_ in e2 and m != FALSE]
+                env[n_] = arms[0][1] if len(arms) == 1 else ('alt', arms[:-1] + [(TRUE, arms[-1][1])])
+            return ('alt', conds + [(TRUE, FALSE)])
+        if k == 'PWild':
+            return TRUE
+        if k == 'PIdent' and not (pat['sub'] is None and self.is_variant_ident(pat['name']) and pat['name'] not in env):
+            env[pat['name']] = v
+            return TRUE if pat['sub'] is None else self.static_match(pat['sub'], v, env)
+        if k == 'PTupleStruct' and pat['path']['segs'][-1] in ('Ok', 'Err') and v[0] in ('ok', 'err') and len(pat['elems']) == 1:
+            if (pat['path']['segs'][-1] == 'Ok') != (v[0] == 'ok'):
+                return FALSE
+            inner = pat['elems'][0]
+            if self.constructed(v[1]) and inner['k'] in ('PStruct', 'PPath', 'PTupleStruct', 'PIdent', 'PWild', 'POr'):
+                return self.static_match(inner, v[1], env)
+            return self.bind(inner, v[1], env)
+        if k in ('PPath', 'PIdent', 'PStruct', 'PTupleStruct') and v[0] in ('path', 'struct'):
+            segs = pat['path']['segs'] if k != 'PIdent' else [pat['name']]
+            want = self.resolve(segs)
+            have = v[1]
+            if have.rsplit('::', 1)[0] not in self.c.enums:
+                return None
+            same_enum = want.rsplit('::', 1)[0] == have.rsplit('::', 1)[0] or want.rsplit('::', 1)[0].split('::')[-1] in ('Self',)
+            if not same_enum and want.split('::')[-2:-1] != have.split('::')[-2:-1]:
+                return None
+            if want.split('::')[-1] != have.split('::')[-1]:
+                return FALSE
+            conds = []
+            if k == 'PStruct' and v[0] == 'struct':
+                for f in pat['fields']:
+                    if f['name'] not in v[2]:
+                        return None
+                    c = self.bind(f['pat'], v[2][f['name']], env)
+                    if c != TRUE:
+                        conds.append(c)
+            elif k == 'PTupleStruct' and v[0] == 'struct':
+                for i, e_ in enumerate(pat['elems']):
+                    if str(i) not in v[2]:
+                        return None
+                    c = self.bind(e_, v[2][str(i)], env)
+                    if c != TRUE:
+                        conds.append(c)
+            return TRUE if not conds else conds[0] if len(conds) == 1 else ('and', conds)
+        if k == 'POr':
+            cs = [self.static_match(cs_, v, env) for cs_ in pat['cases']]
+            if any(c is None for c in cs):
+                return None
+            return TRUE if TRUE in cs else FALSE if all(c == FALSE for c in cs) else ('or', cs)
+        return None
+
     def bind(self, pat, scrut, env):
         """bind pattern variables, return the condition under which the pattern matches"""
         k = pat['k']
+        if k in ('PTupleStruct', 'PStruct', 'PPath') and scrut[0] in ('alt', 'ok', 'err', 'struct') and self.constructed(scrut):
+            r = self.static_match(pat, scrut, env)
+            if r is not None:
+                return r
         if scrut[0] == 'alt' and ((k == 'PTupleStruct' and pat['path']['segs'][-1] in ('Some', 'None')) or (k in ('PIdent', 'PPath') and
                                                                                                         (pat.get('name') == 'None' or pat.get('path', {}).get('segs', [''])[-1] == 'None'))):
             oc, ov = self.as_opt(scrut, assume_option=True)
@@ -2050,11 +2154,12 @@ class Interp:
             last = segs[-1]
             if len(args) == 1 and p in self.c.structs and self.c.is_newtype(p):
                 return args[0]      # transparent newtype: the wrapped value
-            if last == 'from' and len(args) == 1 and len(segs) >= 2:
+            if last in ('from', 'try_from') and len(args) == 1 and len(segs) >= 2:
                 tyq = self.resolve(segs[:-1])
                 if tyq in self.c.enums or tyq in self.c.structs:
                     mod_, short_ = tyq.rsplit('::', 1)
-                    impls = [fq for fq in self.c.fns if fq.startswith(f'{mod_}::<{short_} as From<') and fq.endswith('>::from')]
+                    tr_ = 'From<' if last == 'from' else 'TryFrom<'
+                    impls = [fq for fq in self.c.fns if fq.startswith(f'{mod_}::<{short_} as {tr_}') and fq.endswith('>::' + last)]
                     if len(impls) == 1:
                         self.inline_calls.append((self.frame['callee'], impls[0], e['line']))
                         return self.call_fn(impls[0], args, line=e['line'])
@@ -2229,6 +2334,16 @@ class Interp:
         mq = self.c.method_of(rty, m) if rty else None
         if not mq and self.frame['callee'] in self.c.fns:
             mq = self.c.method_at(self.c.fns[self.frame['callee']]['file'], e.get('line'), m)
+        if not mq and self.frame['callee'] in self.c.fns and self.c.fns[self.frame['callee']].get('trait_default') and \
+                e['recv'].get('k') == 'Path' and e['recv']['path']['segs'] == ['self']:
+            # inside a provided method of a crate trait, `self.m()` is the trait's own method m: its single implementation in the crate (the
+            # body is compiled once, generically - there is no resolved instance to ask)
+            tr = self.c.fns[self.frame['callee']]['trait_default']
+            mod_ = self.c.fns[self.frame['callee']]['mod']
+            cands = [q_ for q_ in self.c.fns if q_.startswith(mod_ + '::<') and q_.endswith(f' as {tr}>::{m}')] + \
+                    ([f'{mod_}::{tr}::{m}'] if f'{mod_}::{tr}::{m}' in self.c.fns else [])
+            if len(cands) == 1:
+                mq = cands[0]
         if mq and self.c.fns[mq]['params'] and self.c.fns[mq]['params'][0]['pat'].get('name') == 'self':
             args = [self.expr(a, env) for a in e['args']]
             self.inline_calls.append((self.frame['callee'], mq, e['line']))
